@@ -149,6 +149,34 @@ pub fn run_lin(args: &Args, report: &mut Report) {
         let _ = f.join();
     }
     report.count(&format!("histories_{label}"), h);
+    // quiescent accounting after thousands of same-key races (C13): exact equality, then zero after drain
+    if report.violations.is_empty() {
+        let probe = storeutil::open(&Cfg::memory(), None).ok();
+        let overhead = probe.map(|s| {
+            let _ = s.insert(b"p", b"v");
+            s.memory_usage() - 2
+        });
+        if let Some(overhead) = overhead {
+            let _ = store.flush();
+            let snap = store.verif_snapshot();
+            let sum: usize = snap.entries.iter().map(|e| overhead + e.key.len() + e.value_len).sum();
+            if store.memory_usage() != sum || store.len() != snap.entries.len() {
+                report.violation(
+                    "mem:drift-after-same-key-races",
+                    format!("[{label}] after {h} concurrent histories: memory_usage() = {} but the {} live keys add up to {}; len() = {}", store.memory_usage(), snap.entries.len(), sum, store.len()),
+                    json!({"engine": "conc", "mode": "lin", "seed": args.seed, "shard": shard, "label": label}),
+                );
+            } else {
+                for e in &snap.entries {
+                    let _ = store.delete_with_timestamp(&e.key, if explicit { Some(base_ts + (histories + 10) * 10_000 * args.num("shards", 1).max(1)) } else { None });
+                }
+                if store.memory_usage() != 0 && store.len() == 0 {
+                    report.violation("mem:nonzero-after-drain", format!("[{label}] memory_usage {} after deleting every key", store.memory_usage()), json!({"engine": "conc", "mode": "lin", "seed": args.seed, "shard": shard}));
+                }
+                report.count("quiescent_accounting_checks", 1);
+            }
+        }
+    }
 }
 
 fn one_history(store: &Arc<FeoxStore>, cfg: &Cfg, seed: u64, hid: u64, explicit: bool, base_ts: u64, report: &mut Report, label: &str) -> Option<(String, String, serde_json::Value)> {
